@@ -391,3 +391,44 @@ def c23_2(cx):
         cx.flow(g, o, [r"^Option::Some\{0: (std::ptr::NonNull::<T>::as_ref\()?table::memo::MemoTableWithTypes::<'.*>::get(::<[^()]*>)?\(zalsa::Zalsa::memo_table_for(::<[^()]*>)?\(\$2, \$3\), \$4\)\?\)?\}$"], [], "get_memo_from_table_for returns the table entry for (id, index)", site)
     e = cx.fn(r"^function::IngredientImpl::<C>::extend_memo_lifetime$")
     cx.flow(e, e.origin_local(0), [r"^transmute\(\$2\)$"], [r"transmute\(\$1"], "extend_memo_lifetime returns its argument")
+
+
+@ob("C24.2", ["C24", "C23"], "pages are typed per ingredient: a page cached or recycled under another ingredient's key receives slots of a foreign type (and two ingredients hand out ids from one page)", kind="FLOW (per-ingredient keying of the page cache and the shared list)")
+def c24_2(cx):
+    """ZalsaLocal::allocate / allocate_cold: the cached page is looked up, inserted and pushed under the ingredient asked ($3); the slot is allocated on the page view of exactly that page index with that page index; the shared unfilled-page list is keyed by ingredient on both sides (take_non_full_page / record_unfilled_page) and record_unfilled_pages gives every (ingredient, page) pair back unchanged."""
+    zl = r"^zalsa_local::ZalsaLocal::"
+    a = cx.fn(zl + r"allocate$")
+    g = cx.one_call(a, r"HashMap::<K, V, S(, A)?>::get$", "page cache lookup in allocate")
+    cx.check(cx.arg(g, 0) == "$1.most_recent_pages" and cx.arg(g, 1) == "$3", "allocate looks the cached page up under the ingredient asked", g, {"args": cx.args(g)}, key="cache-key")
+    for b in (a, cx.fn(zl + r"allocate_cold$")):
+        for al in cx.some_calls(b, r"^table::PageView::<'db, T>::allocate$", 1, "slot allocation in " + b.short):
+            view, page = cx.arg(al, 0), cx.arg(al, 1)
+            cx.check(view == "table::Table::page(zalsa::Zalsa::table($2), %s)" % page, "%s: the slot is allocated on the view of the same page whose index goes into the id" % b.short, al, {"view": view[:200], "page": page[:200]}, key="view-page " + b.short)
+    c = cx.fn(zl + r"allocate_cold$")
+    en = cx.one_call(c, r"HashMap::<K, V, S(, A)?>::entry$", "page cache entry in allocate_cold")
+    cx.check(cx.arg(en, 0) == "$1.most_recent_pages" and cx.arg(en, 1) == "$3", "allocate_cold caches under the ingredient asked", en, {"args": cx.args(en)}, key="cold-cache-key")
+    ins = cx.one_call(c, r"HashMap::<K, V, S(, A)?>::insert$", "page cache insert in allocate_cold")
+    cx.check(cx.arg(ins, 1) == "$3", "a new page is cached under the ingredient asked", ins, {"key": cx.arg(ins, 1)}, key="cold-insert-key")
+    pp = cx.one_call(c, r"^table::Table::push_page$", "push_page in allocate_cold")
+    cx.check(cx.arg(pp, 1) == "$3", "a new page is created for the ingredient asked", pp, {"arg": cx.arg(pp, 1)}, key="push-ingredient")
+    cb = cx.closure_passed_to(c, r"or_insert_with$")
+    fo = cx.one_call(cb, r"^table::Table::fetch_or_push_page$", "fetch_or_push_page")
+    cx.flow(cb, cx.arg(fo, 1), [r"^\$1\.1$"], [r"^const:"], "the first page is fetched for the captured ingredient", fo)
+    t = cx.fn(r"^table::Table::take_non_full_page$")
+    gm = cx.one_call(t, r"HashMap::<K, V, S(, A)?>::get_mut$", "shared list lookup")
+    cx.check(cx.arg(gm, 1) == "$2", "take_non_full_page takes a page of the ingredient asked", gm, key="take-key")
+    r = cx.fn(r"^table::Table::record_unfilled_page$")
+    en = cx.one_call(r, r"HashMap::<K, V, S(, A)?>::entry$", "shared list entry")
+    pu = cx.one_call(r, r"^std::vec::Vec::<T(, A)?>::push$", "push to shared list")
+    cx.check(cx.arg(en, 1) == "$2" and cx.arg(pu, 1) == "$3", "record_unfilled_page files the page under its ingredient", pu, {"key": cx.arg(en, 1), "page": cx.arg(pu, 1)}, key="record-key")
+    fp = cx.fn(r"^table::Table::fetch_or_push_page$")
+    tk = cx.one_call(fp, r"^table::Table::take_non_full_page$", "take in fetch_or_push_page")
+    ph = cx.one_call(fp, r"^table::Table::push_page$", "push in fetch_or_push_page")
+    cx.check(cx.arg(tk, 1) == "$2" and cx.arg(ph, 1) == "$2", "fetch_or_push_page stays within the ingredient asked", tk, key="fetch-key")
+    ru = cx.fn(zl + r"record_unfilled_pages$")
+    rc = cx.closure_passed_to(ru, r"^std::iter::Iterator::for_each$")
+    rp = cx.one_call(rc, r"^table::Table::record_unfilled_page$", "record_unfilled_page in the drain")
+    cx.check(cx.args(rp)[1:] == ["$2.0", "$2.1"], "every drained (ingredient, page) pair is given back unchanged", rp, {"args": cx.args(rp)}, key="drain-pairs")
+    pn = cx.fn(r"^table::Page::new$")
+    agg = cx.one(pn.aggregates(r"^table::Page$"), "Page aggregate")
+    cx.flow(pn, pn._origin_def(agg, "assign", agg.node(), 0, None, ()), [r"ingredient: \$1[,}]"], [r"ingredient: const:"], "a page remembers the ingredient it was created for", agg)
